@@ -231,3 +231,131 @@ Proof.
   - rewrite Nat.eqb_refl. reflexivity.
   - discriminate.
 Qed.
+
+(* ---------- the shared stderr sink ---------- *)
+
+Definition with_err (r : bredir) (c : exec) : exec :=
+  mkexec (b_command c) (b_args c) (b_env c) (b_cwd c) (b_in c) (b_out c) r (b_detached c) (b_data c).
+
+Lemma map_opt_stderr r : forall cmds, Forall (fun c => b_err c = BNone) cmds ->
+  map_opt (fun c => apply_op [] c (OStderr r)) cmds = Some (map (with_err r) cmds).
+Proof.
+  induction cmds as [|c cs IH]; intros H; [reflexivity|]. inversion H as [|? ? Hc Hcs]; subst.
+  cbn [map_opt map]. rewrite (IH Hcs). unfold apply_op. rewrite Hc. reflexivity.
+Qed.
+
+(* a command that already has its own stderr setting makes stderr_to panic (the set-once rule), it is never
+   silently overridden *)
+Lemma map_opt_stderr_conflict f : forall cmds c, In c cmds -> b_err c <> BNone ->
+  map_opt (fun c => apply_op [] c (OStderr (BFile f))) cmds = None.
+Proof.
+  induction cmds as [|x cs IH]; intros c Hin Hne; [destruct Hin|]. cbn [map_opt].
+  destruct Hin as [->|Hin].
+  - unfold apply_op. destruct (b_err c); try congruence; reflexivity.
+  - rewrite (IH c Hin Hne). destruct (apply_op [] x (OStderr (BFile f))); reflexivity.
+Qed.
+
+Definition plain_err (e : exec) : Prop := plain e /\ b_err e = BNone.
+
+(* stderr_to f: the wiring of stdin/stdout is as without it, and every command's stderr is the one file f *)
+Theorem pipeline_stderr_shared p f :
+  2 <= length (p_cmds p) -> Forall plain_err (p_cmds p) -> p_data p = None -> p_errfile p = Some f -> p_in p <> BMerge ->
+  exists ls, ppopen (fun _ => false) p = (ls, OOk) /\ length ls = length (p_cmds p)
+    /\ forall i c, nth_error (p_cmds p) i = Some c ->
+         exists l, nth_error ls i = Some l /\ l_argv l = argv_of c /\ l_err l = BFile f
+           /\ l_in l = (match i with 0 => p_in p | S j => pipe_file j end)
+           /\ l_out l = (if S i =? length (p_cmds p) then p_out p else BPipe).
+Proof.
+  intros Hn Hp Hd He Hm.
+  set (q := mkpl (map (with_err (BFile f)) (p_cmds p)) (p_in p) (p_out p) None None).
+  assert (ppopen (fun _ => false) p = ppopen (fun _ => false) q) as E.
+  { unfold ppopen. rewrite Hd, He. cbn [p_data p_errfile q p_cmds p_in p_out].
+    rewrite map_opt_stderr; [reflexivity|]. eapply Forall_impl; [|exact Hp]. intros a [_ Ha]. exact Ha. }
+  destruct (pipeline_wiring q) as [ls [W1 [W2 W3]]]; cbn [q p_cmds p_data p_errfile p_in]; auto.
+  - rewrite map_length. exact Hn.
+  - apply Forall_forall. intros x Hx. apply in_map_iff in Hx. destruct Hx as [c [<- Hc]].
+    rewrite Forall_forall in Hp. destruct (Hp c Hc) as [[A [B C]] _]. repeat split; assumption.
+  - exists ls. rewrite E. split; [exact W1|]. cbn [q p_cmds] in W2, W3. rewrite map_length in W2, W3. split; [exact W2|].
+    intros i c H. destruct (W3 i (with_err (BFile f) c)) as [l [N1 [N2 [N3 [N4 N5]]]]].
+    + rewrite nth_error_map, H. reflexivity.
+    + exists l. cbn [q p_in p_out] in N4, N5. repeat split; assumption.
+Qed.
+
+Theorem stderr_to_conflict_panics p f c :
+  p_data p = None -> p_errfile p = Some f -> In c (p_cmds p) -> b_err c <> BNone ->
+  forall fails, ppopen fails p = ([], OPanic).
+Proof.
+  intros Hd He Hin Hne fails. unfold ppopen. rewrite Hd, He, (map_opt_stderr_conflict f (p_cmds p) c Hin Hne). reflexivity.
+Qed.
+
+(* capture / communicate: stdout of the last command and stderr of every command are the capture pipes *)
+Theorem capture_wiring p :
+  2 <= length (p_cmds p) -> Forall plain_err (p_cmds p) -> p_in p <> BMerge ->
+  exists ls, fst (setup_comm (fun _ => false) p) = (ls, OOk) /\ length ls = length (p_cmds p)
+    /\ snd (setup_comm (fun _ => false) p) = p_data p
+    /\ forall i c, nth_error (p_cmds p) i = Some c ->
+         exists l, nth_error ls i = Some l /\ l_argv l = argv_of c /\ l_err l = BFile ERR_CAPTURE
+           /\ l_in l = (match i with 0 => p_in p | S j => pipe_file j end)
+           /\ l_out l = BPipe.
+Proof.
+  intros Hn Hp Hm. unfold setup_comm. cbn [fst snd].
+  destruct (pipeline_stderr_shared (mkpl (p_cmds p) (p_in p) BPipe (Some ERR_CAPTURE) None) ERR_CAPTURE) as [ls [W1 [W2 W3]]]; auto.
+  exists ls. cbn [p_cmds p_in p_out] in *. split; [exact W1|]. split; [exact W2|]. split; [reflexivity|].
+  intros i c H. destruct (W3 i c H) as [l [N1 [N2 [N3 [N4 N5]]]]]. exists l. repeat split; auto.
+  rewrite N5. destruct (S i =? length (p_cmds p)); reflexivity.
+Qed.
+
+(* ---------- the status reported ---------- *)
+
+Theorem join_status_is_last p status :
+  2 <= length (p_cmds p) -> Forall plain (p_cmds p) -> p_data p = None -> p_errfile p = None -> p_in p <> BMerge ->
+  pjoin (fun _ => false) p status = JStatus (status (length (p_cmds p) - 1)).
+Proof.
+  intros Hn Hp Hd He Hm. destruct (pipeline_wiring p Hn Hp Hd He Hm) as [ls [W1 [W2 _]]].
+  unfold pjoin. rewrite W1, W2. reflexivity.
+Qed.
+
+Theorem capture_status_is_last p status :
+  2 <= length (p_cmds p) -> Forall plain_err (p_cmds p) -> p_in p <> BMerge ->
+  pcapture (fun _ => false) p status = JStatus (status (length (p_cmds p) - 1)).
+Proof.
+  intros Hn Hp Hm. destruct (capture_wiring p Hn Hp Hm) as [ls [W1 [W2 _]]].
+  unfold pcapture. rewrite W1, W2. reflexivity.
+Qed.
+
+(* a command that cannot be started: join reports that error, never a status *)
+Lemma on_first_length (f : exec -> option exec) l l' : on_first f l = Some l' -> length l' = length l.
+Proof. intros H. destruct l as [|a r]; cbn in H; [injection H as <-; reflexivity|]. destruct (f a); [|discriminate]. injection H as <-. reflexivity. Qed.
+
+Lemma on_last_length (f : exec -> option exec) : forall l l', on_last f l = Some l' -> length l' = length l.
+Proof.
+  induction l as [|a r IH]; intros l' H; cbn in H; [injection H as <-; reflexivity|].
+  destruct r as [|b r'].
+  - destruct (f a); [|discriminate]. injection H as <-. reflexivity.
+  - destruct (on_last f (b :: r')) as [r2|] eqn:Q; [|discriminate]. injection H as <-. cbn [length]. rewrite (IH r2 eq_refl). reflexivity.
+Qed.
+
+Lemma map_opt_length {A B} (g : A -> option B) : forall l l', map_opt g l = Some l' -> length l' = length l.
+Proof.
+  induction l as [|a r IH]; intros l' H; cbn in H; [injection H as <-; reflexivity|].
+  destruct (g a); [|discriminate]. destruct (map_opt g r) as [r2|] eqn:Q; [|discriminate].
+  injection H as <-. cbn [length]. rewrite (IH r2 eq_refl). reflexivity.
+Qed.
+
+Theorem join_failure_is_error p k status :
+  k < length (p_cmds p) -> forall s, pjoin (fun i => i =? k) p status <> JStatus s.
+Proof.
+  intros Hk s. unfold pjoin, ppopen.
+  destruct (p_data p); [discriminate|].
+  assert (exists oc0, (match p_errfile p with
+                       | Some f => map_opt (fun c => apply_op [] c (OStderr (BFile f))) (p_cmds p)
+                       | None => Some (p_cmds p) end) = oc0
+                      /\ forall c0, oc0 = Some c0 -> length c0 = length (p_cmds p)) as [oc0 [-> L0]].
+  { eexists. split; [reflexivity|]. intros c0 H. destruct (p_errfile p) as [f|]; [apply (map_opt_length _ _ _ H)|injection H as <-; reflexivity]. }
+  destruct oc0 as [c0|]; [|discriminate]. specialize (L0 c0 eq_refl).
+  destruct (on_first _ c0) as [c1|] eqn:E1; [|discriminate].
+  destruct (on_last _ c1) as [c2|] eqn:E2; [|discriminate].
+  destruct (spawn (fun i => i =? k) c2 0) as [ls o] eqn:Sp.
+  assert (length c2 = length (p_cmds p)) as L by (rewrite (on_last_length _ _ _ E2), (on_first_length _ _ _ E1); exact L0).
+  destruct (spawn_stops_at_failure c2 0 k ls o Sp) as [->|[-> _]]; try lia; discriminate.
+Qed.
